@@ -27,6 +27,7 @@ import (
 	"errors"
 	"fmt"
 	"io"
+	"strconv"
 	"strings"
 
 	"github.com/WuKongIM/WuKongIM/internal/verifh/vh"
@@ -156,10 +157,40 @@ func resBytes(b []byte, err error) string {
 	if err != nil {
 		return vh.App("Err", vh.N(ecode(err)))
 	}
-	return vh.App("Ok", vh.Hex(b))
+	return vh.App("Ok", lit(b))
 }
 
-func keysTerm(k penc.SessionKeys) string { return vh.App("Keys", vh.Hex(k.AESKey), vh.Hex(k.AESIV)) }
+// lit renders a byte string as (pk len [w0; w1; ...]%uint63): 7 bytes per primitive 63-bit
+// integer, little-endian.  String / hex literals cost ~100 us per character to elaborate, which
+// dominated the check; primitive integers are one node each.
+func lit(b []byte) string {
+	if len(b) == 0 {
+		return "[]"
+	}
+	var sb strings.Builder
+	sb.WriteString("(pk ")
+	sb.WriteString(strconv.Itoa(len(b)))
+	sb.WriteString(" [")
+	for i := 0; i < len(b); i += 7 {
+		var w uint64
+		for j := 6; j >= 0; j-- {
+			w <<= 8
+			if i+j < len(b) {
+				w |= uint64(b[i+j])
+			}
+		}
+		if i > 0 {
+			sb.WriteString("; ")
+		}
+		sb.WriteString(strconv.FormatUint(w, 10))
+	}
+	sb.WriteString("]%uint63)")
+	return sb.String()
+}
+
+func litS(s string) string { return lit([]byte(s)) }
+
+func keysTerm(k penc.SessionKeys) string { return vh.App("Keys", lit(k.AESKey), lit(k.AESIV)) }
 
 // ---- session stub ----------------------------------------------------------------------
 
@@ -174,7 +205,13 @@ func (s *stubSession) Close() error                                         { re
 func (s *stubSession) SetValue(k string, v any)                             { s.vals[k] = v }
 func (s *stubSession) Value(k string) any                                   { return s.vals[k] }
 
-// buildSession returns the session for a path and its Coq description (Sess crypto key iv).
+// letKeys binds the key and IV literals once: (let k := .. in let iv := .. in body); body refers to k, iv.
+func letKeys(keys penc.SessionKeys, body string) string {
+	return "(let k := " + lit(keys.AESKey) + " in let iv := " + lit(keys.AESIV) + " in " + body + ")"
+}
+
+// buildSession returns the session for a path and its Coq description (Sess crypto key iv),
+// written with the names bound by letKeys.
 func buildSession(path int, keys penc.SessionKeys) (*stubSession, string) {
 	s := &stubSession{vals: map[string]any{gatewaytypes.SessionValueEncryptionEnabled: true}}
 	crypto, key, iv := vh.None(), vh.None(), vh.None()
@@ -182,19 +219,19 @@ func buildSession(path int, keys penc.SessionKeys) (*stubSession, string) {
 	case 0:
 		s.vals[gatewaytypes.SessionValueAESKey] = append([]byte(nil), keys.AESKey...)
 		s.vals[gatewaytypes.SessionValueAESIV] = append([]byte(nil), keys.AESIV...)
-		key, iv = vh.Some(vh.Hex(keys.AESKey)), vh.Some(vh.Hex(keys.AESIV))
+		key, iv = "(Some k)", "(Some iv)"
 	case 1:
 		s.vals[gatewaytypes.SessionValueAESKey] = string(keys.AESKey)
 		s.vals[gatewaytypes.SessionValueAESIV] = string(keys.AESIV)
-		key, iv = vh.Some(vh.Hex(keys.AESKey)), vh.Some(vh.Hex(keys.AESIV))
+		key, iv = "(Some k)", "(Some iv)"
 	case 2:
 		// what pkg/gateway/auth.go installs: the keys and the cached crypto object
 		s.vals[gatewaytypes.SessionValueAESKey] = append([]byte(nil), keys.AESKey...)
 		s.vals[gatewaytypes.SessionValueAESIV] = append([]byte(nil), keys.AESIV...)
-		key, iv = vh.Some(vh.Hex(keys.AESKey)), vh.Some(vh.Hex(keys.AESIV))
+		key, iv = "(Some k)", "(Some iv)"
 		if sc, err := gwenc.NewSessionCrypto(keys); err == nil {
 			s.vals[gatewaytypes.SessionValueCrypto] = sc
-			crypto = vh.Some(keysTerm(keys))
+			crypto = "(Some (Keys k iv))"
 		}
 	default:
 	}
@@ -341,8 +378,8 @@ func applyTamper(o *oracle, tp *tamper, honest frame.SendPacket, keys penc.Sessi
 }
 
 func sendTerm(p frame.SendPacket) string {
-	return vh.App("SendPkt", vh.HexS(p.MsgKey), vh.N(p.ClientSeq), vh.HexS(p.ClientMsgNo), vh.HexS(p.ChannelID),
-		vh.N(uint64(p.ChannelType)), vh.Hex(p.Payload))
+	return vh.App("SendPkt", litS(p.MsgKey), vh.N(p.ClientSeq), litS(p.ClientMsgNo), litS(p.ChannelID),
+		vh.N(uint64(p.ChannelType)), lit(p.Payload))
 }
 
 // ---- running -----------------------------------------------------------------------------------
@@ -395,13 +432,13 @@ func runOp(o *oracle, op opIn) (term string, obs map[string]any, class string) {
 		class = fmt.Sprintf("neg:srv_err%d", ecode(serr))
 		cliSKey, cliIV := vh.None(), vh.None()
 		if op.CliSKey != nil {
-			cliSKey = vh.Some(vh.Hex(unhex(*op.CliSKey)))
+			cliSKey = vh.Some(lit(unhex(*op.CliSKey)))
 		}
 		if op.CliIV != nil {
-			cliIV = vh.Some(vh.Hex(unhex(*op.CliIV)))
+			cliIV = vh.Some(lit(unhex(*op.CliIV)))
 		}
 		if serr == nil {
-			srv = vh.App("Ok", vh.Pair(keysTerm(skeys), vh.HexS(spub)))
+			srv = vh.App("Ok", vh.Pair(keysTerm(skeys), litS(spub)))
 			useKey, useIV := spub, string(skeys.AESIV)
 			if op.CliSKey != nil {
 				useKey = string(unhex(*op.CliSKey))
@@ -422,7 +459,7 @@ func runOp(o *oracle, op opIn) (term string, obs map[string]any, class string) {
 			}
 		}
 		obs["srv_err"] = ecode(serr)
-		term = vh.App("OpNeg", vh.Hex(cp[:]), vh.HexS(ckey), vh.Hex(rnd), cliSKey, cliIV, vh.Hex(cpub), srv, cli)
+		term = vh.App("OpNeg", lit(cp[:]), litS(ckey), lit(rnd), cliSKey, cliIV, lit(cpub), srv, cli)
 
 	case "enc":
 		keys, payload := opKeys(op), unhex(op.Payload)
@@ -446,7 +483,7 @@ func runOp(o *oracle, op opIn) (term string, obs map[string]any, class string) {
 		obs["enc_err"], obs["dec_err"], obs["roundtrip"] = ecode(err), ecode(derr), err == nil && derr == nil && bytes.Equal(dec, payload)
 		obs["entry_points_agree"] = agree
 		class = fmt.Sprintf("enc:len=%s,err=%d", lenBucket(len(payload)), ecode(err))
-		term = vh.App("OpEnc", keysTerm(keys), vh.Hex(payload), resBytes(enc, err), resBytes(dec, derr), vh.B(agree))
+		term = vh.App("OpEnc", keysTerm(keys), lit(payload), resBytes(enc, err), resBytes(dec, derr), vh.B(agree))
 
 	case "dec":
 		keys, data := opKeys(op), unhex(op.Data)
@@ -454,7 +491,7 @@ func runOp(o *oracle, op opIn) (term string, obs map[string]any, class string) {
 		o.refDecrypt(keys, data)
 		obs["dec_err"] = ecode(err)
 		class = fmt.Sprintf("dec:err=%d,usable_keys=%v", ecode(err), usable(keys))
-		term = vh.App("OpDec", keysTerm(keys), vh.Hex(data), resBytes(dec, err))
+		term = vh.App("OpDec", keysTerm(keys), lit(data), resBytes(dec, err))
 
 	case "send":
 		keys, plain := opKeys(op), unhex(op.Payload)
@@ -503,10 +540,10 @@ func runOp(o *oracle, op opIn) (term string, obs map[string]any, class string) {
 		if eerr != nil {
 			class = fmt.Sprintf("send:nokeys,path=%d", op.Path)
 		}
-		term = vh.App("OpSend", keysTerm(keys), sessTerm, vh.Hex(plain), vh.N(op.Seq), vh.Hex(unhex(op.MsgNo)), vh.Hex(unhex(op.ChID)),
+		term = letKeys(keys, vh.App("OpSend", "(Keys k iv)", sessTerm, lit(plain), vh.N(op.Seq), lit(unhex(op.MsgNo)), lit(unhex(op.ChID)),
 			vh.N(uint64(op.ChType)),
 			resBytes(enc, eerr), resBytes([]byte(mk), merr), vh.N(ecode(v0)), resBytes(a0pkt.Payload, a0err),
-			sendTerm(tp), vh.N(ecode(v1)), resBytes(a1pkt.Payload, a1err), vh.B(agree))
+			sendTerm(tp), vh.N(ecode(v1)), resBytes(a1pkt.Payload, a1err), vh.B(agree)))
 
 	case "recv":
 		keys, plain := opKeys(op), unhex(op.Payload)
@@ -527,7 +564,7 @@ func runOp(o *oracle, op opIn) (term string, obs map[string]any, class string) {
 		dec := vh.App("Err", "0")
 		rt := false
 		if serr == nil {
-			sealedTerm = vh.App("Ok", vh.Pair(vh.Hex(sealed.Payload), vh.HexS(sealed.MsgKey)))
+			sealedTerm = vh.App("Ok", vh.Pair(lit(sealed.Payload), litS(sealed.MsgKey)))
 			d, derr := penc.DecryptPayload(sealed.Payload, keys)
 			o.refDecrypt(keys, sealed.Payload)
 			dec = resBytes(d, derr)
@@ -535,9 +572,9 @@ func runOp(o *oracle, op opIn) (term string, obs map[string]any, class string) {
 		}
 		obs["seal_err"], obs["roundtrip"] = ecode(serr), rt
 		class = fmt.Sprintf("recv:path=%d,err=%d,len=%s", op.Path, ecode(serr), lenBucket(len(plain)))
-		recvTerm := vh.App("RecvPkt", vh.Z(op.MsgID), vh.N(op.MsgSeq), vh.Hex(unhex(op.MsgNo)), vh.Z(int64(op.Ts)), vh.Hex(unhex(op.From)),
-			vh.Hex(unhex(op.ChID)), vh.N(uint64(op.ChType)), vh.Hex(plain))
-		term = vh.App("OpRecv", keysTerm(keys), sessTerm, vh.B(direct), recvTerm, sealedTerm, dec, vh.B(intact))
+		recvTerm := vh.App("RecvPkt", vh.Z(op.MsgID), vh.N(op.MsgSeq), lit(unhex(op.MsgNo)), vh.Z(int64(op.Ts)), lit(unhex(op.From)),
+			lit(unhex(op.ChID)), vh.N(uint64(op.ChType)), lit(plain))
+		term = letKeys(keys, vh.App("OpRecv", "(Keys k iv)", sessTerm, vh.B(direct), recvTerm, sealedTerm, dec, vh.B(intact)))
 
 	default:
 		panic("unknown op kind " + op.K)
